@@ -176,6 +176,9 @@ pub struct Exec<'c, 'a> {
     base: usize,
     len: usize,
     max_live: usize,
+    /// running digest of every word observed through a typed view (goes into the event log)
+    obs: simcore::rng::Fnv,
+    obs_count: u64,
 }
 
 impl<'c, 'a> Exec<'c, 'a> {
@@ -259,7 +262,7 @@ impl<'c, 'a> Exec<'c, 'a> {
         }
         self.ctx.changed();
         let n = self.layout.names();
-        ev!(self.ctx, "{how} {} -> {} depth={}", n[f.cur as usize], n[f.orig as usize], self.frames.len());
+        ev!(self.ctx, "{how} {} -> {} depth={} observed={} digest={:016x}", n[f.cur as usize], n[f.orig as usize], self.frames.len(), self.obs_count, self.obs.finish());
     }
 
     pub fn model_write(&mut self, k: usize, w: Words) {
@@ -310,6 +313,10 @@ impl<'c, 'a> Exec<'c, 'a> {
             return;
         }
         for (i, w) in items.enumerate() {
+            for x in w.iter() {
+                self.obs.u64(*x);
+            }
+            self.obs_count += 1;
             if w != self.words[i] {
                 let ncomp = self.layout.ncomp();
                 let show = |w: &Words| -> String {
@@ -437,8 +444,8 @@ impl World for C13 {
 
     fn random_runs(&self, tier: Tier) -> u64 {
         match tier {
-            Tier::Quick => 250_000,
-            Tier::Thorough => 10_000_000,
+            Tier::Quick => 3_000_000,
+            Tier::Thorough => 60_000_000,
         }
     }
 
@@ -652,7 +659,7 @@ macro_rules! exec_layout {
                 match ep {
                     Episode::Guard { ty, unclamped, entry, body, end } => {
                         ev!(ctx, "episode {n}: guard");
-                        let mut ex = Exec { ctx: &mut *ctx, layout, words: std::mem::take(&mut model_words), frames: Vec::new(), base: addr, len, max_live: 0 };
+                        let mut ex = Exec { ctx: &mut *ctx, layout, words: std::mem::take(&mut model_words), frames: Vec::new(), base: addr, len, max_live: 0, obs: Default::default(), obs_count: 0 };
                         ex.model_open(cur_tag, *ty, *unclamped);
                         let r = catch(|| $open(&mut owner, &mut ex, *ty, *unclamped, *entry, body, *end));
                         match r {
@@ -691,6 +698,8 @@ macro_rules! exec_layout {
                             base: addr + k * layout.elem_size(),
                             len: 1,
                             max_live: 0,
+                            obs: Default::default(),
+                            obs_count: 0,
                         };
                         ex.model_open(cur_tag, *ty, *unclamped);
                         let r = catch(|| $open_single(&mut owner, &mut ex, k, *ty, *unclamped, *entry, body, *end));
